@@ -73,8 +73,8 @@ def sendFunds (b : Bank) (src dst : Addr) (funds : List Coin) : Option Bank :=
   match funds with
   | [] => some b
   | _ =>
-    let nz := funds.filter fun c => c.amount != 0
-    if nz.isEmpty then none else sendAll b src dst nz
+    if (funds.filter fun c => c.amount != 0).isEmpty then none
+    else sendAll b src dst (funds.filter fun c => c.amount != 0)
 
 /-- sum of the balances of `accts` in denom `d` -/
 def total (b : Bank) (accts : List Addr) (d : Denom) : Nat := (accts.map fun a => b.bal a d).sum
@@ -216,11 +216,14 @@ def feeMsgs (v : Variant) (f : Factory) (price : Coin) (fee : Nat) : List Msg :=
 def sellerMsgs (v : Variant) (m : Minter) (price : Coin) (fee : Nat) : List Msg :=
   if price.amount - fee = 0 then [] else [Msg.send (sellerOf v m) ⟨price.denom, price.amount - fee⟩]
 
-/-- fee distribution then seller payout; `price − fee` underflows (panic / `checked_sub` error) when the fee exceeds the price -/
-def splitMsgs (v : Variant) (f : Factory) (m : Minter) (isAdmin : Bool) (price : Coin) : Except Err (List Msg) :=
-  let fee := networkFee f isAdmin price
+/-- fee distribution then seller payout for a given network fee; `price − fee` underflows (panic / `checked_sub`
+error) when the fee exceeds the price -/
+def splitWith (v : Variant) (f : Factory) (m : Minter) (price : Coin) (fee : Nat) : Except Err (List Msg) :=
   if price.amount < fee then .error .other
   else .ok (feeMsgs v f price fee ++ sellerMsgs v m price fee)
+
+def splitMsgs (v : Variant) (f : Factory) (m : Minter) (isAdmin : Bool) (price : Coin) : Except Err (List Msg) :=
+  splitWith v f m price (networkFee f isAdmin price)
 
 /-- vending / open-edition `_execute_mint`, token-merge admin branch: exact payment, then the messages -/
 def paySale (v : Variant) (f : Factory) (m : Minter) (now : Nat) (isAdmin : Bool) (funds : List Coin) :
@@ -237,18 +240,22 @@ def paySale (v : Variant) (f : Factory) (m : Minter) (now : Nat) (isAdmin : Bool
         | .error e => .error e
         | .ok ms => .ok (price, ms)
 
-/-- base-minter `execute_mint_sender`: `must_pay(NATIVE)`, `min_mint_price × mint_fee_bps` must equal the payment,
+/-- base-minter `execute_mint_sender` for a given `network_fee`: `must_pay(NATIVE)`, the fee must equal the payment,
 all of it fair-burned on behalf of the minter -/
-def payBase (f : Factory) (m : Minter) (funds : List Coin) : Except Err (Coin × List Msg) :=
+def payBaseWith (fee : Nat) (m : Minter) (funds : List Coin) : Except Err (Coin × List Msg) :=
   match mustPay funds NATIVE with
   | .error e => .error e
   | .ok sent =>
-    let fee := mulFloor m.mintPrice.amount (bps f.mintFeeBps)
     if fee ≠ sent then .error .payment
     else
       match Sg1.checkedFairBurn funds m.addr fee none with
       | .error e => .error e
       | .ok ms => .ok (⟨NATIVE, fee⟩, ms)
+
+/-- base-minter: `network_fee = config.mint_price.amount * Decimal::bps(factory.mint_fee_bps)` (`config.mint_price` is
+the factory `min_mint_price` captured at instantiation) -/
+def payBase (f : Factory) (m : Minter) (funds : List Coin) : Except Err (Coin × List Msg) :=
+  payBaseWith (mulFloor m.mintPrice.amount (bps f.mintFeeBps)) m funds
 
 /-- the price charged and the bank messages emitted by a mint.
 Token-merge `ReceiveNft` deposits (`isAdmin = false`) involve no payment check and emit nothing. -/
